@@ -387,6 +387,19 @@ struct ArraysWorld : World {
 					log.ev("HUGE %d size %zx -> slice %s insert %s append %s reserve %s slice-len %s", h, big, r1 ? "ok" : "null", r2 ? "ok" : "null", r3 ? "ok" : "null", r4 ? "ok" : "null", r5 ? "ok" : "null");
 					if (r1 || r2 || r3 || r4 || r5) fail("accepted-invalid", "a request of %zx bytes was accepted (slice-offset %d insert %d append %d reserve %d slice-length %d)", big, !!r1, !!r2, !!r3, !!r4, !!r5);
 					st.hit("probe:huge_size_requested");
+					if (kind == K_RAW && H[h].buf) {
+						// a slice asked to take more blocks than any memory holds (the product wraps): refused, or whatever it reports is what its view grew by
+						struct CSl { CArr a; uintptr_t off, len; } cs; cs.a.buf = 0; cs.off = 0; cs.len = used(h);
+						int rc; { Sut s; rc = mpt_array_clone(AR(cs.a), AR(H[h])); }
+						if (rc >= 0) {
+							size_t bs = 8u << (op.c % 3), nb = SIZE_MAX / bs + 1 + (size_t) (op.c % 3), l0 = cs.len;
+							ssize_t w; { Sut s; w = mpt_slice_write(reinterpret_cast<slice *>(&cs), nb, 0, bs); }
+							log.ev("HUGE %d slice write of %zx blocks of %zu -> %zd (view %zu -> %zu)", h, nb, bs, w, l0, (size_t) cs.len);
+							if (w >= 0 && (size_t) w > (SIZE_MAX - l0) / bs) fail("accepted-invalid", "a slice write of %zx blocks of %zu bytes reports %zd blocks taken", nb, bs, w);
+							if (w >= 0 && cs.len != l0 + (size_t) w * bs) fail("wrong-content", "a slice write reports %zd blocks of %zu bytes, the view grew from %zu to %zu bytes", w, bs, l0, (size_t) cs.len);
+							{ Sut s; mpt_array_clone(AR(cs.a), 0); }
+						}
+					}
 					break;
 				}
 				bool other = (op.c % 5) == 0;
